@@ -83,6 +83,7 @@ type Config struct {
 	Steps     int
 	Clients   bool // commands enter through real ClientIO.ExecCommand calls (C06)
 	NilSigs   bool // scripted actors may send messages with absent signature objects (C10-class)
+	Async     bool // asynchronous vote verification (goroutine per vote), as in production
 	Label     string
 }
 
@@ -152,7 +153,7 @@ func NewCluster(cfg Config, rng *vbase.Rng, r *vbase.Result) (*Cluster, error) {
 	if cfg.Ruleset == rules.NameFastHotStuff {
 		opts = append(opts, core.WithAggregateQC())
 	}
-	w := vk.NewWorld(cfg.N, cfg.Scheme, cfg.Cache, opts...)
+	w := vk.NewWorldMode(cfg.N, cfg.Scheme, cfg.Cache, cfg.Async, opts...)
 	c := &Cluster{Cfg: cfg, W: w, ByID: map[hotstuff.ID][]*Actor{}, Rng: rng, R: r, sending: -1}
 	has := func(l []hotstuff.ID, id hotstuff.ID) bool {
 		for _, x := range l {
